@@ -21,7 +21,8 @@ PURE_PREFIX = ("llvm.dbg", "llvm.lifetime", "llvm.bswap", "llvm.ctlz", "llvm.ctt
                "llvm.assume", "llvm.trap", "llvm.umin", "llvm.umax", "llvm.smin", "llvm.smax", "llvm.abs", "llvm.fshl", "llvm.fshr",
                "llvm.round", "llvm.trunc", "llvm.rint", "llvm.nearbyint", "llvm.copysign", "llvm.pow", "llvm.exp", "llvm.log",
                "llvm.minnum", "llvm.maxnum", "llvm.is.constant", "llvm.objectsize", "llvm.stacksave", "llvm.stackrestore",
-               "llvm.x86.sse", "llvm.x86.ssse3", "llvm.x86.avx", "llvm.x86.bmi", "llvm.vector.reduce", "llvm.usub.sat", "llvm.uadd.sat")
+               "llvm.x86.sse", "llvm.x86.ssse3", "llvm.x86.avx", "llvm.x86.bmi", "llvm.x86.vcvt", "llvm.x86.fma", "llvm.x86.pclmul",
+               "llvm.convert", "llvm.fptoui.sat", "llvm.fptosi.sat", "llvm.fshl", "llvm.fshr", "llvm.bitreverse", "llvm.vector.reduce", "llvm.usub.sat", "llvm.uadd.sat")
 PURE_LIBC = {"ldexp", "frexp", "fabs", "floor", "ceil", "log", "log2", "log10", "exp", "exp2", "pow", "sqrt", "round", "llround", "lround",
              "fmax", "fmin", "trunc", "abs", "labs", "llabs", "strlen", "memcmp", "memchr", "strcmp", "strncmp", "__assert_fail", "abort",
              "ldexpf", "fabsf", "sqrtf", "floorf", "ceilf", "isnan", "isinf", "__isnan", "__isinf", "__fpclassify", "modf", "fmod"}
